@@ -33,7 +33,7 @@ type Clause struct {
 	Prop    string
 	Always  bool // ensures that also applies to panic exits (none yet)
 	Internal bool    // proved for the body but not exported to callers (may mention the function's locals)
-	Assumed bool     // requires only: a state invariant the callee relies on; assumed (not checked) at call sites and listed as an unchecked assumption
+	Assumed bool     // requires / loop invariant: a state invariant the function relies on; assumed (not checked) at call sites resp. at the loop head and listed as an unchecked assumption
 	Slow    bool     // checked in the thorough tier only (solver needs more than the quick timeout)
 	Using   []string // tags of earlier ensures clauses that may be used as hypotheses ("by #a, #b")
 }
@@ -521,7 +521,7 @@ func parseContractFile(data, file, pkgPath string) ([]*Contract, error) {
 					cl.Slow = true
 					rest = strings.TrimSpace(rest[5:])
 				}
-				if strings.HasPrefix(rest, "assumed ") && word == "requires" {
+				if strings.HasPrefix(rest, "assumed ") && (word == "requires" || word == "loop") {
 					cl.Assumed = true
 					rest = strings.TrimSpace(rest[8:])
 				}
